@@ -43,9 +43,12 @@ LeadIdx(now) == FrontIdx(now) + ChainOffset
 LeadOk(now) == LeadIdx(now) <= Len(ChainSeq)
 
 \* TradingEnv.notify restricted to what matters here: clock and books (new-date notifications are Env.tla's)
+\* a quote keyed by the chain itself (one continuous front-month series) lands in the book of the contract the chain
+\* resolves to at the time of that quote (the clock is advanced before the exchange sees the event)
 Notify(s, ev) ==
-    LET led == IF ev.kind = "q" THEN QuoteF(s.st, ev.c, RM(ev.bid), RM(ev.ask))
-               ELSE IF ev.kind = "d" THEN DiscontinueF(s.st, ev.c) ELSE s.st
+    LET c   == IF ev.c = "CH" THEN ChainSeq[LeadIdx(ev.t)] ELSE ev.c
+        led == IF ev.kind = "q" THEN QuoteF(s.st, c, RM(ev.bid), RM(ev.ask))
+               ELSE IF ev.kind = "d" THEN DiscontinueF(s.st, c) ELSE s.st
     IN  [env |-> [s.env EXCEPT !.now = ev.t], st |-> led, log |-> Append(s.log, ev.id), gnow |-> ev.t]
 
 RECURSIVE NotifyAll(_, _)
